@@ -218,7 +218,12 @@ Fixpoint take_line (s : bytes) : bytes * bytes :=
   | [] => ([], [])
   | b :: t => if b =? LF then ([b], t) else let (l, r) := take_line t in (b :: l, r)
   end.
-Definition ends_with (b : N) (s : bytes) : bool := match rev s with x :: _ => x =? b | [] => false end.
+(* str::ends_with(char): is the last byte b?  (one linear pass; List.rev would be quadratic on a 100 KiB line) *)
+Fixpoint ends_with (b : N) (s : bytes) : bool :=
+  match s with
+  | [] => false
+  | x :: t => match t with [] => x =? b | _ :: _ => ends_with b t end
+  end.
 Definition pop (s : bytes) : bytes := removelast s.
 (* read_line: (raw byte count, stripped line, rest of the stream) *)
 Definition read_line (s : bytes) : nat * bytes * bytes :=
